@@ -1338,8 +1338,15 @@ def run(ctx) -> None:
                 continue
             ctx.broke("C", "dumper", f"child failed for {out}: {err[-800:]}")
         gen_err = [s for s in status if s["err"] and s["file"] == "" and s["err"] != "skipped"]
-        for s in gen_err[:3]:
-            ctx.broke("C", "generated program does not compile", f"{s['item']}: {s['err'][:500]}")
+        # a generated program that mypy/mypyc itself rejects (e.g. "used before definition") is not an input of
+        # this property: it is dropped and counted; only "none of them compiles" is a broken generator
+        n_gen = sum(1 for s in status if s["file"] == "")
+        ctx.cov["generated_programs"] = n_gen
+        ctx.cov["generated_rejected_by_mypy"] = len(gen_err)
+        for s in gen_err[:2]:
+            ctx.log(f"generated program dropped: {s['item']}: {s['err'][:200]}")
+        if n_gen and len(gen_err) == n_gen:
+            ctx.broke("C", "generator", "no generated program compiles: " + gen_err[0]["err"][:500])
         ctx.cov["programs"] = len(status)
         ctx.cov["programs_not_compiled"] = sum(1 for s in status if s["err"])
         ctx.cov["idioms"] = counters
